@@ -426,6 +426,12 @@ PKG_CASES = {
         'pkgc/util.py': 'def helper():\n    return 1\n',
         'pkgc/only.py': 'class only(object):\n    def om(self):\n        pass\n',
     },
+    'init-imports-from-submodule': {
+        'pkgd/__init__.py': 'from .mod import K\n',
+        'pkgd/mod.py': 'class K(object):\n    def km(self):\n        pass\n',
+        'pkgd/sub/__init__.py': 'from pkgd.sub.sib import sv\n',
+        'pkgd/sub/sib.py': 'sv = 1\n',
+    },
 }
 PKG_QUERIES = [
     ('from pkgc import Base\nBase().bm\n', (2, 7), {'bm', 'ba'}, ('pkgc/Base.py', (2, 8))),
@@ -435,6 +441,12 @@ PKG_QUERIES = [
     ('from pkgc import util\nutil.helper\n', (2, 5), {'helper'}, ('pkgc/util.py', (1, 4))),
     ('from pkgc import only\nonly.only().om\n', (2, 12), {'om'}, ('pkgc/only.py', (2, 8))),       # no attribute of that name: the submodule
     ('from pkgc.Base import Base\nBase().bm\n', (2, 7), {'bm', 'ba'}, ('pkgc/Base.py', (2, 8))),
+    # a submodule the package imports itself is an attribute of the package (import side effect)
+    ('import pkgc\npkgc.util.helper\n', (2, 9), {'helper'}, ('pkgc/util.py', (1, 4))),
+    ('import pkgc\npkgc.Base().bm\n', (2, 12), {'bm', 'ba'}, ('pkgc/Base.py', (2, 8))),
+    ('import pkgd\npkgd.mod.K().km\n', (2, 14), {'km'}, ('pkgd/mod.py', (2, 8))),
+    ('from pkgd import *\nK().km\n', (2, 4), {'km'}, ('pkgd/mod.py', (2, 8))),
+    ('import pkgd.sub\npkgd.sub.sib.sv\n', (2, 13), {'sv'}, ('pkgd/sub/sib.py', (1, 0))),
 ]
 
 
